@@ -32,7 +32,9 @@ type APICase struct {
 	SpecURL   string   `json:"specURL,omitempty"` // WithUISpecURL when non-empty
 	Title     string   `json:"title,omitempty"`   // WithUITitle when non-empty
 	Template  int      `json:"template,omitempty"`
-	Reqs      []Req    `json:"reqs,omitempty"` // further requests around the document paths
+	// SharedOpts: a handler for another API is built first from all options but the last, out of the same backing array
+	SharedOpts bool  `json:"shared_opts,omitempty"`
+	Reqs       []Req `json:"reqs,omitempty"` // further requests around the document paths
 }
 
 func (c APICase) Document() []byte {
@@ -125,7 +127,7 @@ func CheckAPI(c APICase) *kit.Violation {
 			}))
 		}
 		ctx := middleware.NewContext(doc, api, nil)
-		var opts []middleware.UIOption
+		opts := make([]middleware.UIOption, 0, 8) // an option list with room to grow, as one built with append has
 		if c.HasUIBase {
 			opts = append(opts, middleware.WithUIBasePath(c.UIBase))
 		}
@@ -140,6 +142,20 @@ func CheckAPI(c APICase) *kit.Violation {
 		}
 		if c.Template != 0 {
 			opts = append(opts, middleware.WithTemplate(Templates[c.Template]))
+		}
+		if c.SharedOpts && len(opts) > 0 {
+			// the application first installs documentation for another API from the options the two have in common (a
+			// prefix of the list, sharing its backing array), then this one from the whole list (r7)
+			common := opts[:len(opts)-1]
+			other := middleware.NewContext(doc, api, nil)
+			switch c.Flavour {
+			case "redoc":
+				_ = other.APIHandler(nil, common...)
+			case "rapidoc":
+				_ = other.APIHandlerRapiDoc(nil, common...)
+			default:
+				_ = other.APIHandlerSwaggerUI(nil, common...)
+			}
 		}
 		switch c.Flavour {
 		case "redoc":
